@@ -69,7 +69,27 @@ SelectionsFailed(ev) ==
                         /\ posIn(full, sels[i].rules[a].name) > posIn(full, sels[i].rules[b].name)
                    THEN {"selections/rules_in_rule_file_order"} ELSE {})
 
+(* op "motif": the search for a small ORF with a sequence motif around an anchor gene (the code-based profiles that feed
+   the rule engine), on a ring rotated by several k.  anchor, orf: locations at rotation 0; reach: how far the search
+   extends on both sides of the anchor; runs: Seq([k, exc, found : Seq(location)]) as observed on the record rotated by
+   k.  The ORF is found iff it lies within reach of the anchor (free when it only partly does), whatever the origin *)
+MotifFailed(ev) ==
+    LET R == [L |-> ev.L, circ |-> TRUE]
+        span == Cover(R, {ev.anchor})
+        area == Extend(R, span, ev.reach)
+        must == Size(span) + 2 * ev.reach >= ev.L \/ Contains(area, ev.orf)
+        mustNot == Size(span) + 2 * ev.reach < ev.L /\ ~Overlaps(area, ev.orf)
+        back(run) == {Bases(Shift(R, run.found[i], 0 - run.k)) : i \in DOMAIN run.found}
+    IN  UNION {IF ev.runs[i].exc # "" THEN {"motif/no_exception:" \o ev.runs[i].exc}
+               ELSE (IF must /\ Bases(ev.orf) \notin back(ev.runs[i]) THEN {"motif/orf_within_reach_is_found"} ELSE {})
+                    \cup (IF mustNot /\ back(ev.runs[i]) # {} THEN {"motif/nothing_beyond_reach"} ELSE {})
+                    \cup (IF back(ev.runs[i]) \ {Bases(ev.orf)} # {} THEN {"motif/only_the_planted_orf"} ELSE {})
+               : i \in DOMAIN ev.runs}
+        \cup (IF \E i, j \in DOMAIN ev.runs : ev.runs[i].exc = "" /\ ev.runs[j].exc = "" /\ back(ev.runs[i]) # back(ev.runs[j])
+              THEN {"motif/same_result_for_every_origin"} ELSE {})
+
 Failed(ev) == CASE ev.op = "detect" -> DetectEvFailed(ev.scene, ev.rules, ev.out)
+                [] ev.op = "motif" -> MotifFailed(ev)
                 [] ev.op = "meta" -> MetaFailed(ev)
                 [] ev.op = "selections" -> SelectionsFailed(ev)
                 [] OTHER -> {"trace/unknown_op"}
